@@ -73,6 +73,8 @@ def run(mod, prog: Program, rep: engine.Reporter, tier: str, seed: int) -> Dict:
         row = {"variant": vname, "kind": v.kind, "status": status}
         if status == "n/a":
             rows.append(row)
+            if os.environ.get("SA_STRICT_VARIANTS"):
+                failures.append(f"variant {vname} is not applicable on this tree (strict mode)")
             continue
         if status == "error":
             failures.append(f"{vname}: {info}")
